@@ -12,6 +12,30 @@ CLAIMED = {
             "Exploration: every (scheme, backend) one-step result of randomly generated passive modules (all module kinds, irregular trees, heterogeneous compartment counts, non-topological labellings, dt 1e-4..1e9) is compared with an independently assembled symmetric cable system by componentwise backward error; plus eager runs with HH where wrappers on the real solver functions re-solve each call. Held on the executions observed, nothing more.",
             "Trusts the oracle R1 (self-tested in setup.sh against hand-computed systems and analytic cable), numpy.linalg.solve, and that exceptions are allowed refusals.",
             "DESIGN.md section 4 C01"),
+    "C02": ("identity monitors over observed one-step executions: charge balance, uniform-stays-uniform, maximum principle, reciprocity over all ordered pairs",
+            "Exploration: physical identities that need no reference solution are evaluated on jitted one-step simulations of randomly generated passive modules for every (scheme, backend): sum C dv against injected minus membrane charge, uniform rest, min/max bounds for backward Euler, and the full response matrix (N+1 runs) for symmetry. Sensitive to consistently applied wrong factors that A-vs-B tests cannot see.",
+            "Trusts area=2*pi*r*l and the definition of C_i, G_i; tolerances are scaled by the rounding scale of the rows of the linear system and by its condition number.",
+            "DESIGN.md section 4 C02"),
+    "C03": ("runtime contracts (icontract) on the real update_states methods + recorded gate trajectories under voltage clamp",
+            "Exploration: icontract postconditions attached from outside to update_states of HH, Na, K, Km, CaL, CaT, Leak, IonotropicSynapse, TestSynapse judge every gate value returned for hostile vectors (exact singular voltages, +-1..8 ulp, 1e-13..1e-3 offsets, clip thresholds, dense random doubles; dt 1e-6..1e3; states 0/1/denormal/1-2^-53): finite, in [0,1], equal to the closed-form exponential built from the code's own rates, moving toward and never past the steady state; plus integrate() under a voltage clamp passing exactly through the singular voltages.",
+            "The closed form uses the code's own rate functions (rates themselves are C04). Sampled doubles, not every double.",
+            "DESIGN.md section 4 C03"),
+    "C04": ("reference-model monitor: rate functions, currents, defaults vs mpmath transcription of the papers (self-tested against NEURON's hh); rename differential",
+            "Exploration: return values of every gate function, compute_current, synaptic update and the parameter/state tables are compared with a 50-digit mpmath oracle written from HH 1952 / Pospischil 2008 / Abbott-Marder 1998 on singular, near-singular, clipped and generic voltages; renamed instances must be bit-identical with keys re-prefixed for random prefix chains.",
+            "Trusts the transcription R2 (HH part cross-checked against NEURON 9 compiled hh mechanism in setup.sh; Pospischil/Abbott-Marder part from the papers only). Known finding F12 (CaT tau_u above -20 mV) is reported as KNOWN-FINDING.",
+            "DESIGN.md section 4 C04"),
+    "C14": ("fixed-point and reference-model monitors on .nodes after init_states()",
+            "Exploration: after init_states() on randomly built modules with partial, renamed and multiple channel insertions and per-compartment voltages (incl. singular ones) and parameters, every gate must be a fixed point of the channel's own update for dt in {0.025,1,1000}, equal R2's steady state, and nothing outside (channel rows x gate columns) may change.",
+            "Trusts R2 steady states and the channel's own update_states as the definition of 'fixed point'.",
+            "DESIGN.md section 4 C14"),
+    "C17": ("runtime contracts (icontract) on forward() for bounds + exact-arithmetic (mpmath) round-trip/monotonicity oracles + jit/leafwise differential",
+            "Exploration: bounds postconditions fire on every concrete forward call; round trips in both directions are judged against the exact sigmoid/softplus with the unavoidable conditioning error of the exact inverse as tolerance (exempt only where the exact value rounds onto a bound); monotonicity on sorted batches; ParamTransform must touch exactly its own leaf; jit == eager where well conditioned.",
+            "Declared bounds are the constructor arguments as documented. The interval-analysis proof named in the quantifier is another technique family and is not attempted.",
+            "DESIGN.md section 4 C17"),
+    "C20": ("definition-based monitor over .edges after each builder call, many seeds per configuration, exhaustive small boolean matrices",
+            "Exploration (with an exhaustive sub-enumeration of all boolean matrices up to 2x3/3x2 quick, 3x3 thorough): after every fully_connect / sparse_connect / connectivity_matrix_connect call on random cell subsets of irregular networks the appended rows are mapped to cells and compared with the product set / True entries / subset rule, pre site = first compartment, post site inside the intended cell, no exception for any draw.",
+            "Cells are identified via net.nodes; global numpy RNG re-seeded per call.",
+            "DESIGN.md section 4 C20"),
 }
 
 PENDING_REASON = "check not built yet in this session (planned: see DESIGN.md section 4); not claimed until it has run silent on the unchanged tree"
